@@ -386,18 +386,18 @@ def run_print_flush_gap(order, flush_at):
     return None
 
 
-def run_circular(cap, ops):
+def run_circular(cap, ops, quiet=False):
     from windpyutils.structures.circular_buffer import CircularBuffer
     comp = CircularBuffer(3)        # a second, independent ring buffer
     comp.put("companion-a")
     comp.put("companion-b")
-    bad = _run_circular(CircularBuffer(cap), cap, ops)
+    bad = _run_circular(CircularBuffer(cap), cap, ops, quiet)
     if bad is None and (list(comp) != ["companion-a", "companion-b"] or len(comp) != 2 or comp.max_size != 3):
         return "other-instance-disturbed", f"a second ring buffer [companion-a, companion-b], untouched during the run, presents {list(comp)}"
     return bad
 
 
-def _run_circular(cb, cap, ops):
+def _run_circular(cb, cap, ops, quiet=False):
     hist = []
     ever = []
     if cb.max_size != cap:
@@ -415,6 +415,9 @@ def _run_circular(cb, cap, ops):
         if cb.max_size != cap:
             return "circular-capacity", f"capacity {cap}: max_size became {cb.max_size} after {step + 1} operations"
         want = hist[-cap:]
+        if quiet and step + 1 < len(ops) and (step * 7 + len(ops)) % 5:
+            # quiet history: most steps are not followed by a read (a read may refresh what a put / clear left behind)
+            continue
         got = outcome(lambda: list(cb))
         if got != ("ok", want) or len(cb) != len(want):
             return "circular-content", (f"capacity {cap}, after {step + 1} ops: list(buffer)={got}, len={len(cb)}, "
@@ -623,6 +626,21 @@ def run_shard(spec):
             report(bad, {"what": "circular", "cap": cap, "ops": [[o, list(v) if v else None] for o, v in ops]})
         if len(ops) >= 2:
             res.seen(("c", cap, tuple(o for o, _ in ops)))
+    rng = common.rng_for(PROP, seed, "circ-quiet", shard)
+    for j in range(150 if tier == "quick" else 2500):
+        cap = 1 + (j % 9)
+        ops = []
+        for k in range(rng.randint(2, 40)):
+            ops.append(("clear", None) if rng.random() < 0.1 else ("put", (j, k)))
+        res.evaluations += len(ops)
+        res.count("circular_quiet_histories_read_at_few_points_only")
+        with instr.budget(5_000_000):
+            try:
+                bad = run_circular(cap, ops, quiet=True)
+            except instr.StepBudgetExceeded:
+                bad = ("operation-does-not-end", "circular buffer: statement budget exceeded")
+        if bad:
+            report(bad, {"what": "circular", "cap": cap, "quiet": True, "ops": [[o, list(v) if v else None] for o, v in ops]})
     # ring buffers with capacities of thousands, and (one shard) a PrintBuffer holding more than a million values
     for cap in ([1025, 2049][shard % 2::2] if tier == "quick" else [1025, 1500, 2049, 4097, 10001][shard % 5::5]):
         res.evaluations += 1
@@ -674,7 +692,7 @@ def replay(doc):
     elif c["what"] in ("print", "print-blank"):
         bad = run_print_buffer(c["order"], set(c["drains"]), c["end"], blank=c["what"] == "print-blank")
     else:
-        bad = run_circular(c["cap"], [(o, tuple(v) if v else None) for o, v in c["ops"]])
+        bad = run_circular(c["cap"], [(o, tuple(v) if v else None) for o, v in c["ops"]], quiet=bool(c.get("quiet")))
     if bad:
         return True, f"reproduced: {bad[0]}: {bad[1]}"
     return False, "trace accepted by the checker"
